@@ -133,7 +133,9 @@ def parse_block(out):
         for m in re.finditer(r'Failed Checks: (.*)', out):
             r['failed_checks'].append({'description': m.group(1).strip()})
     r['unwind_failure'] = any('unwinding assertion' in f['description'] for f in r['failed_checks'])
-    r['timed_out'] = bool(re.search(r'(?i)timed? ?out|TIMEOUT', out)) and r['result'] is None
+    r['timed_out'] = bool(re.search(r'CBMC timed out|GLOBAL TIMEOUT', out)) and r['result'] != 'SUCCESSFUL'
+    if r['timed_out'] or ('CBMC failed' in out and r['result'] != 'SUCCESSFUL'):
+        r['result'] = None          # no verdict: a solver timeout / crash is never a refutation nor a proof
     return r
 
 
@@ -183,30 +185,46 @@ def kani_env():
     return e
 
 
-def run_harnesses(ws, unit, hs, jobs=8, extra=(), timeout=None):
-    ht = max(h.get('timeout', 300) for h in hs)
-    cmd = kani_cmd(unit, [h['name'] for h in hs], jobs=jobs, extra=extra, harness_timeout=ht)
-    total_to = timeout or (600 + ht * (1 + len(hs) // max(1, jobs)))
-    t0 = time.time()
+def _run_chunk(ws, unit, hs, extra, ht):
+    cmd = kani_cmd(unit, [h['name'] for h in hs], jobs=1, extra=extra, harness_timeout=ht)
+    total_to = 900 + (ht + 30) * len(hs)
     try:
         p = subprocess.run(cmd, cwd=ws, capture_output=True, text=True, timeout=total_to, env=kani_env())
         out = p.stdout + '\n' + p.stderr
-        rc = p.returncode
     except subprocess.TimeoutExpired as ex:
         so = ex.stdout or ''
         out = (so.decode('utf8', 'replace') if isinstance(so, bytes) else so) + '\nGLOBAL TIMEOUT'
-        rc = -1
-        subprocess.run(['pkill', '-f', 'cbmc'], capture_output=True)
-    blocks = split_blocks(out)
+    return out, ' '.join(cmd)
+
+
+def run_harnesses(ws, unit, hs, jobs=8, extra=(), timeout=None):
+    """Run the harnesses in `jobs` parallel cargo-kani processes (each sequential: no interleaved output to parse)."""
+    from concurrent.futures import ThreadPoolExecutor
+    ht = max(h.get('timeout', 300) for h in hs)
+    t0 = time.time()
+    # longest-first round robin so that chunks have similar cost
+    order = sorted(hs, key=lambda h: -h.get('timeout', 300))
+    n = max(1, min(jobs, len(order)))
+    chunks = [order[i::n] for i in range(n)]
+    if n > 1:
+        # warm the dependency build once so that the parallel processes do not all wait on the cargo lock with a cold cache
+        _run_chunk(ws, unit, [], list(extra) + ['--only-codegen'], ht) if not os.path.isdir(os.path.join(CACHE, 'kani')) else None
+    with ThreadPoolExecutor(max_workers=n) as ex:
+        outs = list(ex.map(lambda c: _run_chunk(ws, unit, c, extra, ht), chunks))
     res = {}
-    for h in hs:
-        fq = unit.module + '::' + h['name']
-        b = blocks.get(fq)
-        r = parse_block(b) if b is not None else {'result': None, 'failed_checks': [], 'checks_total': None, 'checks_failed': None, 'time_s': None,
-                                                   'cover_sat': None, 'cover_total': None, 'unwind_failure': False, 'timed_out': False}
-        r['output'] = (b or '')[-8000:]
-        res[h['name']] = r
-    return res, out, ' '.join(cmd), time.time() - t0, rc
+    full = ''
+    for (out, cmd), chunk in zip(outs, chunks):
+        full += out + '\n'
+        blocks = split_blocks(out)
+        for h in chunk:
+            fq = unit.module + '::' + h['name']
+            b = blocks.get(fq)
+            r = parse_block(b) if b is not None else {'result': None, 'failed_checks': [], 'checks_total': None, 'checks_failed': None, 'time_s': None,
+                                                       'cover_sat': None, 'cover_total': None, 'unwind_failure': False, 'timed_out': False}
+            r['output'] = (b or out[-3000:])[-8000:]
+            res[h['name']] = r
+    cmd0 = outs[0][1] if outs else ''
+    return res, full, '%d parallel processes of: %s' % (n, cmd0), time.time() - t0, 0
 
 
 def run_kani_unit(unit, repo, tier='quick', jobs=8, keep_ws=False, only=None, prop=None, known=None):
@@ -238,12 +256,15 @@ def run_kani_unit(unit, repo, tier='quick', jobs=8, keep_ws=False, only=None, pr
             elif r['result'] == 'FAILED':
                 real = [f for f in r['failed_checks'] if 'unwinding assertion' not in f['description']
                         and not any(re.search(ig, f['description']) for ig in unit.ignore_checks)]
-                if not real and not r.get('unwind_failure'):
+                if not real and not r.get('unwind_failure') and r['failed_checks']:
                     rec['result'] = 'SUCCESSFUL'
                     rec['note'] = (rec.get('note') or '') + ' (only ignored CBMC checks failed: %s)' % unit.ignore_checks
                     continue
                 if not real and r.get('unwind_failure'):
                     out['undecided'].append('%s: unwinding bound too small (unwinding assertion failed)' % h['name'])
+                elif not real:
+                    rec['result'] = 'NO-VERDICT'
+                    out['undecided'].append('%s: FAILED without a failed check (tool error)\n%s' % (h['name'], r['output'][-800:]))
                 else:
                     out['failures'].append({'obligation': h['obligation'], 'kind': 'kani-' + h['kind'], 'function': h['obligation'].rsplit('::', 1)[0],
                                             'harness': h['name'], 'props': h['props'],
